@@ -444,6 +444,15 @@ def zipAccount : List Nat → Nat → Nat → Bool
   | [], _, _ => true
   | s :: rest, run, limit => if run + s > limit then false else zipAccount rest (run + s) limit
 
+/-- the same loop on what `FileInfo().Size()` can return: the declared 64-bit size read as a signed
+`int64` (negative for declared sizes ≥ 2^63), the running total wrapping like Go's `int64`; the guard is
+`fileSize < 0 || unzipSize < 0 || unzipSize > UnzipSizeLimit` -/
+def zipAccountI : List Int → Int → Int → Bool
+  | [], _, _ => true
+  | s :: rest, run, limit =>
+    let run' := wrap64 (run + s)
+    if s < 0 ∨ run' < 0 ∨ run' > limit then false else zipAccountI rest run' limit
+
 /-- `checkOpenReaderOptions` (both limits given) followed by `ReadZipReader`'s accounting -/
 def openLimits (sizes : List Nat) (limit xmlLimit : Nat) : Outcome Unit :=
   if xmlLimit > limit then .err
@@ -592,31 +601,36 @@ structure Rc where
   y2 : Int
   deriving Repr, DecidableEq
 
-/-- `overlapRange`: greatest row and column mentioned by the merged cells -/
-def overlapRange : List Rc → Int × Int → Int × Int
+/-- `sortCoordinates` -/
+def sortRc (r : Rc) : Rc :=
+  { x1 := if r.x2 < r.x1 then r.x2 else r.x1, y1 := if r.y2 < r.y1 then r.y2 else r.y1,
+    x2 := if r.x2 < r.x1 then r.x1 else r.x2, y2 := if r.y2 < r.y1 then r.y1 else r.y2 }
+
+/-- `isOverlap`: two sorted rectangles share a cell -/
+def isOverlapRc (a b : Rc) : Bool :=
+  decide (a.x1 ≤ b.x2) && decide (b.x1 ≤ a.x2) && decide (a.y1 ≤ b.y2) && decide (b.y1 ≤ a.y2)
+
+/-- `mergeCell`: the rectangle bounding both -/
+def unionRc (a b : Rc) : Rc :=
+  { x1 := if a.x1 ≤ b.x1 then a.x1 else b.x1, y1 := if a.y1 ≤ b.y1 then a.y1 else b.y1,
+    x2 := if a.x2 ≥ b.x2 then a.x2 else b.x2, y2 := if a.y2 ≥ b.y2 then a.y2 else b.y2 }
+
+/-- the inner `for { … }` of `flatMergedCells`: take the listed cells overlapping `r` out of the list
+and into `r`, until none overlaps (`fuel` bounds the rounds; each round shortens the list) -/
+def settle : Nat → Rc → List Rc → Rc × List Rc
+  | 0, r, cells => (r, cells)
+  | fuel + 1, r, cells =>
+    let ov := cells.filter (isOverlapRc r)
+    if ov.isEmpty then (r, cells)
+    else settle fuel (ov.foldl unionRc r) (cells.filter fun c => !isOverlapRc r c)
+
+/-- `flatMergedCells` / `mergeOverlapCells`: merged cells are normalised pairwise on their rectangles;
+no matrix over the worksheet is built -/
+def normalise : List Rc → List Rc → List Rc
   | [], acc => acc
-  | r :: rest, (row, col) =>
-    let col1 := if r.x1 > col then r.x1 else col
-    let col2 := if r.x2 > col1 then r.x2 else col1
-    let row1 := if r.y1 > row then r.y1 else row
-    let row2 := if r.y2 > row1 then r.y2 else row1
-    overlapRange rest (row2, col2)
-
-/-- the accesses `matrix[x][y]` of `flatMergedCells` / `mergeOverlapCells` for one rectangle, on a
-matrix of `cols` × `rows`: the paint loops `x1-1 … x2-1`, `y1-1 … y2-1` (empty when unsorted) and the
-corner test `matrix[x1-1][y1-1]` -/
-def paintOK (rows cols : Int) (r : Rc) : Bool :=
-  (if r.x1 ≤ r.x2 ∧ r.y1 ≤ r.y2 then
-    decide (0 ≤ r.x1 - 1) && decide (r.x2 - 1 < cols) && decide (0 ≤ r.y1 - 1) && decide (r.y2 - 1 < rows)
-   else true) &&
-  decide (0 ≤ r.x1 - 1) && decide (r.x1 - 1 < cols) && decide (0 ≤ r.y1 - 1) && decide (r.y1 - 1 < rows)
-
-/-- `mergeOverlapCells`: size the matrix, then touch it for every rectangle -/
-def mergeMatrix (rs : List Rc) : Outcome (Int × Int) :=
-  let (rows, cols) := overlapRange rs (0, 0)
-  if rows = 0 ∨ cols = 0 then .ok (0, 0)
-  else if rows < 0 ∨ cols < 0 then .panic     -- make([][]*xlsxMergeCell, cols)
-  else if rs.all (paintOK rows cols) then .ok (rows, cols) else .panic
+  | r :: rest, acc =>
+    let p := settle (acc.length + 1) (sortRc r) acc
+    normalise rest (p.2 ++ [p.1])
 
 /-! ## compound file header and stream extraction -/
 
@@ -702,23 +716,25 @@ def padChunk (n : Nat) (blockSize : Int) : Outcome Nat :=
     let r := (n : Int) % blockSize
     if r = 0 then .ok n else .ok (n + (blockSize - r).toNat)
 
-/-- the chunk loop of `decryptPackage` from offset `e`; `fuel` bounds the iterations -/
+/-- the segment loop of `decryptPackage` over `data = input[8:]` from `start`; `fuel` bounds the iterations -/
 def pkgLoop (i : AgIn) : Nat → Nat → Outcome Unit
   | 0, _ => .ok ()
-  | fuel + 1, e =>
-    if e < i.pkgLen then
-      let e' := if e + 4096 > i.pkgLen then i.pkgLen else e + 4096
-      let hi := if e' + 8 < i.pkgLen then e' + 8 else e'
-      if ¬ sliceOK i.pkgLen (e + 8) hi then .panic        -- input[start+offset : …]
+  | fuel + 1, start =>
+    let dataLen := i.pkgLen - 8
+    if start < dataLen then
+      let e := if start + 4096 > dataLen then dataLen else start + 4096
+      if ¬ sliceOK dataLen start e then .panic        -- data[start:end]
       else
-        (padChunk (hi - (e + 8)) i.blockSize).bind fun n =>
+        (padChunk (e - start) i.blockSize).bind fun n =>
         (createIV i).bind fun ivLen =>
-        (cbcDecrypt i.encKeyLen ivLen n).bind fun _ => pkgLoop i fuel e'
+        (cbcDecrypt i.encKeyLen ivLen n).bind fun _ => pkgLoop i fuel (start + 4096)
     else .ok ()
 
 /-- `decryptPackage` -/
 def decryptPackage (i : AgIn) : Outcome Unit :=
-  if i.pkgLen < 8 then .err else pkgLoop i (i.pkgLen + 1) 0
+  if i.pkgLen < 8 then .err
+  else if ¬ sliceOK i.pkgLen 8 i.pkgLen then .panic   -- input[offset:]
+  else pkgLoop i (i.pkgLen + 1) 0
 
 /-- `agileDecrypt` -/
 def agileDecrypt (i : AgIn) : Outcome Unit :=
@@ -730,8 +746,5 @@ def agileDecrypt (i : AgIn) : Outcome Unit :=
       if !i.saltOK then .err
       else if !i.encKeyOK then .err
       else (cbcDecrypt keyLen i.saltLen i.encKeyLen).bind fun _ => decryptPackage i
-
-/-- the guard `decryptPackage` still lacks: the last chunk must leave room for the 8-byte offset -/
-def tailOK (pkgLen : Nat) : Bool := decide (pkgLen ≤ 4096) || decide (pkgLen % 4096 = 0) || decide (pkgLen % 4096 ≥ 8)
 
 end XlModel.Decode
